@@ -176,6 +176,8 @@ def formulas(family):
                       lambda d, r, i=i: approx_round(d[f'pgrid{i}'], d[f'vgrid{i}'] * d[f'igrid{i}'])))
         f.append(('ppv', ['vpv1', 'ipv1', 'vpv2', 'ipv2', 'vpv3', 'ipv3'], (0, 1, 0x7FFF, 0xFFFF, 900),
                   lambda d, r: d['ppv'] == d['ppv1'] + d['ppv2'] + d['ppv3']))
+        f.append(('ppv', ['vpv1', 'ipv1', 'vpv2', 'ipv2', 'vpv3', 'ipv3'], (2050, 49, 2025, 46, 0),
+                  lambda d, r: d['ppv'] == d['ppv1'] + d['ppv2'] + d['ppv3']))
         return 'all_sensors', f
     if family == 'ES':
         return 'sensors', [
@@ -193,6 +195,12 @@ def formulas(family):
             ('house_consumption', ['vpv1', 'ipv1', 'vbattery1', ('raw', 18, 2), 'battery_mode', ('raw', 38, 2), 'grid_in_out'],
              (0, 1, 0x0203, 0xFFFF, 900),
              lambda d, r: d['house_consumption'] == d['ppv1'] + d['ppv2'] + d['pbattery1'] - d['pgrid']),
+            # ... and over voltage/current pairs whose exact product ends in .5 W (205.0 V x 4.9 A, 202.5 V x 4.6 A): which way
+            # a tie is rounded is not prescribed, but the total is over the parts AS REPORTED in the same result
+            ('house_consumption', ['vpv1', 'ipv1', 'vbattery1', ('raw', 18, 2), 'battery_mode', ('raw', 38, 2), 'grid_in_out'],
+             (2050, 49, 2025, 46, 0),
+             lambda d, r: d['house_consumption'] == d['ppv1'] + d['ppv2'] + d['pbattery1'] - d['pgrid']),
+            ('ppv', ['vpv1', 'ipv1', 'vpv2', 'ipv2'], (2050, 49, 2025, 46, 0, 1005, 10), lambda d, r: d['ppv'] == d['ppv1'] + d['ppv2']),
         ]
     return None, []
 
